@@ -197,10 +197,31 @@ func shippedMain(args []string) error {
 		for _, m := range regexp.MustCompile(`'([a-z]{3,})'`).FindAllSubmatch(text, -1) {
 			words = append(words, string(m[1]))
 		}
+		// keywords of which another keyword is a proper prefix ('finally'/'final'): where ordered choice matters most
+		var siblings []string
+		seenW := map[string]bool{}
+		for _, w := range words {
+			for _, v := range words {
+				if v != w && strings.HasPrefix(w, v) && !seenW[w] {
+					seenW[w] = true
+					siblings = append(siblings, w)
+				}
+			}
+		}
 		identRe := regexp.MustCompile(`[A-Za-z_][A-Za-z_0-9]*`)
+		krng := rand.New(rand.NewSource(*seed + 77))
 		for _, s := range samples {
 			inputs[name] = append(inputs[name], s)
 			kinds[name] = append(kinds[name], "sample")
+			if locs := identRe.FindAllStringIndex(s, -1); len(locs) > 0 {
+				for _, w := range siblings {
+					for k := 0; k < 3; k++ {
+						l := locs[krng.Intn(len(locs))]
+						inputs[name] = append(inputs[name], s[:l[0]]+w+s[l[1]:])
+						kinds[name] = append(kinds[name], "keyword")
+					}
+				}
+			}
 			if locs := identRe.FindAllStringIndex(s, -1); len(locs) > 0 && len(words) > 0 {
 				for k := 0; k < 2**muts; k++ {
 					l := locs[rng.Intn(len(locs))]
